@@ -3,6 +3,7 @@ persist_snapshot (the crash points are the CFG edges), restore agrees, a persist
 acknowledged as success, restore at boot."""
 from ..cfg import Body
 from ..report import where
+from .. import mutpoints as mp_
 from .. import orderdom as od
 
 LEVEL = "other"
@@ -92,6 +93,7 @@ def run(ctx, F, cg):
     ctx.rule("R14c", "the marker is created after the rename; every path from each directory-entry change (rename, marker creation) to Ok passes an fsync of the marker file and of a handle on the directory")
     ctx.rule("R14d", "restore_persisted_snapshots reads the snapshot only when both the final file and the marker exist")
     ctx.rule("R14e", "in the import handler a persist_snapshot error leads to an error status, never to the success reply")
+    ctx.rule("R14h", "the import handler persists an upload only after importing it successfully: the import call dominates persist_snapshot, which lies on the import's success side")
     ctx.rule("R14f", "the server restores the persisted snapshot at boot whether or not RocksDB recovery found data")
     ctx.rule("R14g", "what is persisted is cumulative: the bytes written derive from an export of the post-import store, or the file name is unique per import")
     ps = F.fn(MOD + "persist_snapshot")
@@ -213,6 +215,27 @@ def run(ctx, F, cg):
                 ctx.ok("R14e", "handler|persist-error-surfaced", "Err(persist) leads to an error status and never joins the success reply")
             else:
                 ctx.violation("R14e", "handler|persist-error-swallowed", where(h, pc.line), "a failed persist_snapshot is only logged: the import is acknowledged as successful although it will not survive a restart")
+        # R14h: only a validated upload replaces the committed snapshot
+        imps = [c for c in hb.calls() if c.path.rsplit("::", 1)[-1] in ("import_tenant_with_dedup", "import_tenant")]
+        for k_, pc in enumerate(pcs):
+            if not imps:
+                ctx.violation("R14h", "handler|persist|%d|no-import" % k_, where(h, pc.line), "the handler persists an upload it never imports")
+                continue
+            ok_order = any(hb.dominates(ic.bb, pc.bb) and ic.bb != pc.bb for ic in imps)
+            # and not on the import's failure side
+            on_err = False
+            for ic in imps:
+                side = mp_.some_side(hb, ic) if hasattr(mp_, "some_side") else None
+                if side is not None:
+                    sw_, ok_t_ = side
+                    errside = [x for x in hb.succ(sw_) if x != ok_t_]
+                    if any(pc.bb in hb.reachable(x, avoid={sw_}) and pc.bb not in hb.reachable(ok_t_, avoid={sw_}) for x in errside):
+                        on_err = True
+            if ok_order and not on_err:
+                ctx.ok("R14h", "handler|persist|%d" % k_, "persist_snapshot is dominated by the import and lies on its success side")
+            else:
+                ctx.violation("R14h", "handler|persist|%d|before-validation" % k_, where(h, pc.line),
+                              "persist_snapshot can run before the upload has been imported successfully: a rejected (truncated / corrupt) upload replaces the committed snapshot of an earlier acknowledged import, and the next restart restores the corrupt file")
         # R14g: what is persisted
         for pc in pcs:
             a = pc.args[1] if len(pc.args) > 1 else None
